@@ -172,20 +172,17 @@ func runWE3(c *Ctx, s *Sink) {
 		var gostmt *ast.GoStmt
 		var litBody *ast.BlockStmt
 		var litInfo *types.Info
-		for _, st := range fd.Body.List {
-			ast.Inspect(st, func(n ast.Node) bool {
-				switch x := n.(type) {
-				case *ast.FuncLit:
-					return false
-				case *ast.CallExpr:
-					if isCallTo(info, x, "pkg/obiiter.RegisterAPipe") && reg == nil {
-						reg = x
-					}
+		deferred := false
+		ast.Inspect(fd.Body, func(n ast.Node) bool {
+			switch x := n.(type) {
+			case *ast.FuncLit:
+				return false
+			case *ast.CallExpr:
+				if isCallTo(info, x, "pkg/obiiter.RegisterAPipe") && reg == nil {
+					reg = x
 				}
-				return true
-			})
-			if g, ok := st.(*ast.GoStmt); ok {
-				if body, binfo := c.goTarget(info, defs, g); body != nil {
+			case *ast.GoStmt:
+				if body, binfo := c.goTarget(info, defs, x); body != nil {
 					has := false
 					ast.Inspect(body, func(n ast.Node) bool {
 						if call, ok := n.(*ast.CallExpr); ok && isCallTo(binfo, call, "pkg/obiiter.UnregisterPipe") {
@@ -194,13 +191,27 @@ func runWE3(c *Ctx, s *Sink) {
 						return true
 					})
 					if has && gostmt == nil {
-						gostmt, litBody, litInfo = g, body, binfo
+						gostmt, litBody, litInfo = x, body, binfo
+						ncalls := 0
+						ast.Inspect(body, func(n ast.Node) bool {
+							if call, ok := n.(*ast.CallExpr); ok && isCallTo(binfo, call, "pkg/obiiter.UnregisterPipe") {
+								ncalls++
+							}
+							return true
+						})
+						for _, st := range body.List {
+							if d, ok := st.(*ast.DeferStmt); ok && isCallTo(binfo, d.Call, "pkg/obiiter.UnregisterPipe") && ncalls == 1 {
+								deferred = true
+							}
+						}
 					}
 				}
+				return false
 			}
-		}
+			return true
+		})
 		if reg == nil {
-			s.Undecided(nil, key, fd.Pos(), "RegisterAPipe() is not a top-level statement of the function")
+			s.Undecided(nil, key, fd.Pos(), "RegisterAPipe() is not called by the function itself")
 			continue
 		}
 		if gostmt == nil {
@@ -209,6 +220,10 @@ func runWE3(c *Ctx, s *Sink) {
 		}
 		if reg.Pos() > gostmt.Pos() {
 			s.Fail(nil, key, reg.Pos(), "the writer goroutine is started before RegisterAPipe(): WaitForLastPipe() may return before the writer is registered")
+			continue
+		}
+		if deferred {
+			s.Pass(nil, key, reg.Pos(), "registered before the writer goroutine starts; UnregisterPipe() is deferred by the goroutine: executed once, after everything it does")
 			continue
 		}
 		// in the goroutine: exactly one UnregisterPipe on every exit, after every write/close of the sink
